@@ -2,6 +2,7 @@ package sim
 
 import (
 	"bytes"
+	"crypto/sha256"
 	"encoding/json"
 	"fmt"
 	"os"
@@ -57,7 +58,9 @@ var regularWords = []string{"status", "quiz", "mouse", "matrix", "index", "box",
 	"datum", "buffalo", "tomato", "virus", "alias", "axis", "bus", "cat", "a", "s", "", "ss", "ID", "user_id", "userName", "Query", "menus",
 	"movies", "shoes", "drives", "news", "bureaus", "octopi", "caches", "addresses", "statuses"}
 var boundaries = []string{" ", "-", ".", "/", ":", "+", "--", " - ", "\n", "\t", "\r\n", "!", "(", "'"}
-var prefixes = []string{"old", "big", "a.b", "x", "New York", "well known", "42", "Ünï", "a-b", "UPPER", "line1\nline2", "tab\tbed", ""}
+var prefixes = []string{"old", "big", "a.b", "x", "New York", "well known", "42", "Ünï", "a-b", "UPPER", "line1\nline2", "tab\tbed", "",
+	// lower-casing changes the byte length of these (İ, the Kelvin sign, Ⱥ, ẞ)
+	"İstanbul", "ȺȺȺȺȺȺȺȺȺȺ", "5 K", "STRAẞE", "İİİ"}
 
 func caseVariant(r *Rng, w string) string {
 	switch r.Intn(5) {
@@ -165,14 +168,16 @@ func (c InflCall) raw() string { return inflproto.Call{Op: c.Op, Arg: c.Arg, Hex
 
 // executeInfl runs a batch of histories in a fresh scheduled worker and checks
 // I1-I4 against a sequential reference computed in another fresh process.
-func executeInfl(env *Env, sc *Scenario) ([]Violation, error) {
+func executeInfl(env *Env, sc *Scenario) ([]Violation, string, error) {
 	ic := sc.Infl
 	if ic == nil {
-		return nil, infra("infl scenario without case")
+		return nil, "", infra("infl scenario without case")
 	}
 	if ic.Race {
-		return executeInflRace(env, sc)
+		v, err := executeInflRace(env, sc)
+		return v, "race-leg-not-deterministic", err
 	}
+	dig := sha256.New()
 	var viol []Violation
 	add := func(oracle, class, detail string, hi int, facts map[string]string) {
 		viol = append(viol, Violation{Property: "C20", Oracle: oracle, Class: class, Detail: detail, Step: hi, Facts: facts})
@@ -200,12 +205,12 @@ func executeInfl(env *Env, sc *Scenario) ([]Violation, error) {
 	}
 	rw, err := startInfl(env, env.InflBin)
 	if err != nil {
-		return nil, err
+		return nil, "", err
 	}
 	refResp, err := inflDo(env, rw, &inflproto.Req{Mode: "seq", Calls: refCalls})
 	rw.Close()
 	if err != nil {
-		return nil, err
+		return nil, "", err
 	}
 	ref := func(op, arg string) inflproto.Result { return refResp.Seq[seen[refKey{op, arg}]] }
 	for i, c := range refCalls {
@@ -216,7 +221,7 @@ func executeInfl(env *Env, sc *Scenario) ([]Violation, error) {
 
 	w, err := startInfl(env, env.InflBin)
 	if err != nil {
-		return nil, err
+		return nil, "", err
 	}
 	defer w.Close()
 	for hi, h := range ic.Histories {
@@ -230,7 +235,13 @@ func executeInfl(env *Env, sc *Scenario) ([]Violation, error) {
 		}
 		resp, err := inflDo(env, w, req)
 		if err != nil {
-			return nil, err
+			return nil, "", err
+		}
+		fmt.Fprintf(dig, "h%d %v %v %v\n", hi, resp.Schedule, resp.Labels, resp.Deadlock)
+		for _, cl := range resp.Results {
+			for _, r := range cl {
+				fmt.Fprintf(dig, "%q %q %d %d\n", r.Ret, r.Panic != "", r.Invoke, r.Return)
+			}
 		}
 		env.Stats.Add("infl-histories", 1)
 		env.Stats.Add("infl-steps", int64(resp.Steps))
@@ -278,7 +289,7 @@ func executeInfl(env *Env, sc *Scenario) ([]Violation, error) {
 			}
 		}
 	}
-	return viol, nil
+	return viol, fmt.Sprintf("%x", dig.Sum(nil)[:12]), nil
 }
 
 // executeInflRace: the unmodified package, real goroutines, race detector.
